@@ -78,6 +78,10 @@ static void check_K(void)
 		g_inv_bad |= 2;
 }
 static void on_relock(void);
+/* lock-ownership model, first acquisition: what the lock protects cannot be known before the lock is
+ * held -- a unit may put stale values there before the call and have the true ones appear here */
+static int g_first_lock_mode;
+static void on_first_lock(void);
 int STUB(pthread_mutex_init)(pthread_mutex_t *m, const pthread_mutexattr_t *a) { return verif_in.mutex_fail ? 12 : 0; }
 int STUB(pthread_mutex_destroy)(pthread_mutex_t *m) { return 0; }
 int STUB(pthread_mutex_lock)(pthread_mutex_t *m)
@@ -85,6 +89,8 @@ int STUB(pthread_mutex_lock)(pthread_mutex_t *m)
 	__CPROVER_assert(!g_lock_held, "[C12,C14] the pool lock is not taken twice");
 	g_lock_held = 1;
 	g_lock_acq++;
+	if (g_lock_acq == 1)
+		on_first_lock();
 	if (g_lock_acq >= 2)
 		on_relock();
 	return 0;
@@ -318,7 +324,11 @@ void h_idle_timeout(void)
 	v_thr->kicked = verif_in.kicked;
 	iv_list_add(&v_thr->list, &v_pool->idle_threads);
 	g_allocs = g_frees = 0;
+	/* before the lock is held the kick flag is not knowable */
+	g_first_lock_mode = 2;
+	v_thr->kicked = verif_in.done_empty;
 	iv_work_thread_idle_timeout(v_thr);
+	g_first_lock_mode = 0;
 	if (verif_in.kicked) {
 		__CPROVER_assert(g_frees == 0 && g_treg == 1 && v_pool->idle_threads.next == &v_thr->list, "[C12,C13] a worker that was kicked just before its idle timeout re-arms instead of dying and stays on the idle list: the kick is not lost, and 'idle timer armed iff on the idle list' still holds, which is what lets the kick handler cancel the timer before the worker can be retired");
 		__CPROVER_assert(v_thr->idle_timer.expires.tv_sec == v_now.tv_sec + 10, "[C12] ten seconds from now");
@@ -331,6 +341,14 @@ void h_idle_timeout(void)
 }
 
 /* ---- owner: completions and pool release ----------------------------------- */
+static void on_first_lock(void)
+{
+	if (g_first_lock_mode == 1 && v_pool != NULL)
+		v_pool->started_threads = verif_in.started;	/* pool put: the last worker may have retired until now */
+	if (g_first_lock_mode == 2 && v_thr != NULL)
+		v_thr->kicked = verif_in.kicked;		/* idle timeout: a submission may have kicked the worker until now */
+}
+
 static void on_relock_event(void)
 {
 	/* between the two critical sections of iv_work_event other threads may queue a completion or retire */
@@ -395,9 +413,14 @@ void h_pool_put(void)
 		v_idle = mk_thread();
 		iv_list_add(&v_idle->list, &v_pool->idle_threads);
 	}
+	/* before the lock is held the thread count is not knowable */
+	g_first_lock_mode = 1;
+	__CPROVER_assume(verif_in.relock_started >= 0 && verif_in.relock_started <= verif_in.max_threads);
+	v_pool->started_threads = verif_in.relock_started;
 	iv_work_pool_put(&v_pub);
+	g_first_lock_mode = 0;
 	__CPROVER_assert(v_pub.priv == NULL && v_pool->shutting_down == 1, "[C13] the caller's structure is detached at once (it may be reused); the pool is marked shutting down");
-	__CPROVER_assert(g_post_ev == (verif_in.started == 0 ? 1 : 0), "[C13] without workers the owner is woken to free the pool");
+	__CPROVER_assert(g_post_ev == (verif_in.started == 0 ? 1 : 0), "[C13] without workers -- judged under the pool lock: the last worker may retire right up to it -- the owner is woken to free the pool");
 	__CPROVER_assert(g_post_kick_idle == ((verif_in.started > 0 && verif_in.idle_present) ? 1 : 0), "[C13] idle workers are woken so that they notice the shutdown; busy ones notice when they run out of work");
 	__CPROVER_assert(!g_lock_held && g_pool_freed == 0, "[C13] the pool itself stays until the last worker and completion are gone");
 	CANARY();
